@@ -15,9 +15,9 @@ Lemma bmc_get_evrcv s : bmc_handle s (mkReq 4 1 0 []) = (s, RBytes (0 :: get s (
 Proof. reflexivity. Qed.
 
 Definition chk_evrcv (lun a : N) : bool :=
-  exch_eqb (one_exchange "set_event_receiver" [arg "ipmb_address" a; arg "lun" lun] (RBytes [0]))
+  exch_ok "set_event_receiver" [arg "ipmb_address" a; arg "lun" lun] (RBytes [0])
            (mkReq 4 0 0 [2 * a; lun]) (Ok PNone)
-  && exch_eqb (one_exchange "get_event_receiver" [] (RBytes [0; 2 * a; lun]))
+  && exch_ok "get_event_receiver" [] (RBytes [0; 2 * a; lun])
               (mkReq 4 1 0 []) (Ok (PList [PInt (Z.of_N a); PInt (Z.of_N lun)])).
 Lemma evrcv_table : forallb (fun a => forallb (fun lun => chk_evrcv lun a) (nrange 4)) (nrange 128) = true.
 Proof. vm_cast_no_check (eq_refl true). Qed.
@@ -37,10 +37,10 @@ Definition thr_dict (t : list N) : pv :=
 
 Definition chk_thr (x : N * N) (y : N * list N) : bool :=
   let '(num, lun) := x in let '(m, vals) := y in
-  exch_eqb (one_exchange "set_sensor_thresholds" (thr_args num lun m vals) (RBytes [0]))
+  exch_ok "set_sensor_thresholds" (thr_args num lun m vals) (RBytes [0])
            (mkReq 4 38 lun (thr_request num m vals)) (Ok PNone)
-  && exch_eqb (one_exchange "get_sensor_thresholds" [arg "sensor_number" num; arg "lun" lun]
-                            (RBytes (0 :: 63 :: thr_new m vals [0; 0; 0; 0; 0; 0])))
+  && exch_ok "get_sensor_thresholds" [arg "sensor_number" num; arg "lun" lun]
+                            (RBytes (0 :: 63 :: thr_new m vals [0; 0; 0; 0; 0; 0]))
               (mkReq 4 39 lun [num]) (Ok (thr_dict (thr_new m vals [0; 0; 0; 0; 0; 0]))).
 
 Definition thr_sensors : list (N * N) := [(3, 1); (255, 3)].
@@ -67,20 +67,20 @@ Proof. reflexivity. Qed.
 
 Opaque one_exchange call bmc_handle.
 
-Lemma write_read_event_receiver s a lun : a < 128 -> lun < 4 ->
+Lemma write_read_event_receiver s a lun : is_supported "set_event_receiver" = true -> is_supported "get_event_receiver" = true -> a < 128 -> lun < 4 ->
   let s1 := put s (K_EVRCV, 0, 0) [2 * a; lun] in
   exists r1 r2,
     call "set_event_receiver" [arg "ipmb_address" a; arg "lun" lun] s = (r1, s1) /\ same r1 (Ok PNone) /\
     call "get_event_receiver" [] s1 = (r2, s1) /\ same r2 (Ok (PList [PInt (Z.of_N a); PInt (Z.of_N lun)])).
 Proof.
-  intros Ha Hl s1.
+  intros Sw Sr Ha Hl s1.
   pose proof (table2 chk_evrcv (nrange 128) (nrange 4) evrcv_table a lun (nrange_in 128 a Ha) (nrange_in 4 lun Hl)) as C.
   unfold chk_evrcv in C. apply andb_true_iff in C as [W R].
   assert (BW : bmc_handle s (mkReq 4 0 0 [2 * a; lun]) = (s1, RBytes [0])).
   { rewrite bmc_set_evrcv, (N.mod_small lun 4 Hl). reflexivity. }
   assert (BR : bmc_handle s1 (mkReq 4 1 0 []) = (s1, RBytes [0; 2 * a; lun])).
   { rewrite bmc_get_evrcv. unfold s1. rewrite get_put_same. reflexivity. }
-  exact (write_then_read "set_event_receiver" "get_event_receiver" _ _ s s1 _ _ _ _ _ _ W BW R BR).
+  exact (write_then_read "set_event_receiver" "get_event_receiver" _ _ s s1 _ _ _ _ _ _ Sw Sr W BW R BR).
 Qed.
 
 Lemma thr_request_shape num m vals : exists v0 v1 v2 v3 v4 v5,
@@ -91,7 +91,7 @@ Proof.
   cbn [nth]. repeat (destruct (bit m _ =? 1); cbn [nth]); reflexivity.
 Qed.
 
-Lemma write_read_thresholds s num lun m vals :
+Lemma write_read_thresholds s num lun m vals : is_supported "set_sensor_thresholds" = true -> is_supported "get_sensor_thresholds" = true -> 
   List.In (num, lun) thr_sensors -> List.In (m, vals) thr_cases ->
   get s (K_THR, lun, num) = [0; 0; 0; 0; 0; 0] -> get s (K_THRMASK, lun, num) = [63] ->
   let t := thr_new m vals [0; 0; 0; 0; 0; 0] in
@@ -101,7 +101,7 @@ Lemma write_read_thresholds s num lun m vals :
     call "get_sensor_thresholds" [arg "sensor_number" num; arg "lun" lun] s1 = (r2, s1) /\
     same r2 (Ok (thr_dict t)).
 Proof.
-  intros Hx Hy H1 H2 t s1.
+  intros Sw Sr Hx Hy H1 H2 t s1.
   pose proof (table2 (fun y x => chk_thr x y) thr_sensors thr_cases thr_table (num, lun) (m, vals) Hx Hy) as C.
   cbv beta in C. unfold chk_thr in C. apply andb_true_iff in C as [W R].
   destruct (thr_request_shape num m vals) as (v0 & v1 & v2 & v3 & v4 & v5 & E1 & E2).
@@ -110,5 +110,5 @@ Proof.
   assert (BR : bmc_handle s1 (mkReq 4 39 lun [num]) = (s1, RBytes (0 :: 63 :: t))).
   { rewrite bmc_get_thr. unfold s1. rewrite get_put_same.
     rewrite get_put_other by discriminate. rewrite H2. reflexivity. }
-  exact (write_then_read "set_sensor_thresholds" "get_sensor_thresholds" _ _ s s1 _ _ _ _ _ _ W BW R BR).
+  exact (write_then_read "set_sensor_thresholds" "get_sensor_thresholds" _ _ s s1 _ _ _ _ _ _ Sw Sr W BW R BR).
 Qed.
